@@ -407,13 +407,15 @@ PROPS = {
         "stages": [
             {"mode": "native", "cpu_budget": 400},
             {"mode": "asan", "shards": 4, "scale": 0.05, "tiers": ["thorough"], "cpu_budget": 900},
+            {"mode": "tsan", "shards": 4, "scale": 1.0, "tiers": ["thorough"], "cpu_budget": 900},
         ],
         "rule": "an evaluation is one query answered by net::client::cache::Connection over a mock upstream (SendRequest) under the paused tokio clock; a case "
                 "is a history of 8-60 queries over 4 names x {A, TXT} with every combination of RD/CD/AD/DO and occasional upper-case spelling, the clock "
                 "moved between queries by 0, fractions of a second, amounts around 1/2/5/30/60/75/90/100/300 s, or up to an hour; each name answers in one way "
                 "(positive with NS/glue and, under DO, RRSIGs; NODATA and NXDOMAIN with SOA and, under DO, NSEC/NSEC3/RRSIG; delegation; SERVFAIL/REFUSED; "
                 "truncated; transport failure; empty NOERROR; an alias: CNAME plus the target's data, CNAME plus SOA as NODATA, CNAME plus SOA as NXDOMAIN) with TTLs from {0,1,2,5,30,59,60,61,300,...}; every upstream response carries a unique "
-                "marker, so a response served without asking upstream names the response it was made from; cache configuration (maximum validity, NXDOMAIN / "
+                "marker, so a response served without asking upstream names the response it was made from; a real-thread family (multi-thread runtime, six "
+                "tasks querying one cache at once, judged by the markers alone) is also all there is to the ThreadSanitizer stage; cache configuration (maximum validity, NXDOMAIN / "
                 "NODATA / delegation bounds, error and failure durations, cache_truncated, 1-1000 entries) random. Oracle: a cached response is upstream's "
                 "answer to the same name and type, for flags it is compatible with (RD only from RD, CD equal, DO only from DO, AD from AD or DO), with the "
                 "same records (minus RRSIG/NSEC/NSEC3 without DO), every TTL reduced by the age (never increased), served no later than its smallest TTL, "
